@@ -483,6 +483,15 @@ func (c *Cursor) Filter(ctx context.Context, idxStr string, val []interface{}) e
 			}
 		}
 	}
+	if c.t.Tree.Root.Size() == 0 {
+		// nothing stored (new table, or everything vacuumed): the tree
+		// cursor cannot seek in an empty tree
+		c.cursor = nil
+		c.currentKey = nil
+		c.currentRow = nil
+		c.eof = true
+		return nil
+	}
 	var err error
 	c.cursor, err = c.t.Tree.Root.Cursor(ctx)
 	if err != nil {
